@@ -127,7 +127,7 @@ PROPS = {
     "C18": {"suites": [("ser64", 1.0)], "theorems": ["RModel.BSet.canon_ext", "RModel.Facts.r64_cookies_spec",
                                                      "RModel.Impl.decode_encode", "RModel.Impl.prefix_rejected", "RModel.Impl.decode_no_panic"],
             "modules": DEFAULT_MODULES + [FACTS, "RProofs.Properties.C05"], "owns": None},
-    "C19": {"suites": [("bsi", 1.0)], "corpus": ["corpus/bsi/F02_marshal_sign.txt"],
+    "C19": {"suites": [("bsi", 1.0)], "corpus": ["corpus/bsi/F02_marshal_sign.txt", "corpus/bsi/F14_unmarshal_reused_receiver.txt"],
             "theorems": ["RModel.BSI.wf_new", "RModel.BSI.wf_setValue", "RModel.BSI.get_set_same", "RModel.BSI.get_set_other",
                          "RModel.BSI.exists_set", "RModel.BSI.get_foldl_setValue", "RModel.BSI.wf_foldl_setValue",
                          "RModel.BSI.get_clearValues", "RModel.BSI.get_retainSet", "RModel.BSI.get_setFixed_same",
